@@ -433,6 +433,39 @@ func runVerify(c *core.Ctx) {
 					ok = true
 				}
 			}
+			if !ok {
+				// the session is a parameter of a helper: every caller passes a session it created with a digest option
+				if p, isParam := sess.(*ssa.Parameter); isParam && p.Parent() == fn {
+					pi := -1
+					for i, q := range fn.Params {
+						if q == p {
+							pi = i
+						}
+					}
+					sites := c.P.Callers(fn)
+					all := len(sites) > 0 && pi >= 0
+					for _, site := range sites {
+						cc := site.Common()
+						if cc.StaticCallee() != fn || pi >= len(cc.Args) {
+							all = false
+							break
+						}
+						cr, _ := an.CallOf(an.Origin(cc.Args[pi]))
+						if cr == nil || !isBlobCreate(r, cr) {
+							all = false
+							break
+						}
+						if ds, okd := withDigestArgs(r, cr); !okd || len(ds) == 0 {
+							all = false
+							break
+						}
+					}
+					if all {
+						c.Pass(key, call.Pos(), "the session is handed in by callers that created it with BlobWithDigest: the store compares the digest on commit")
+						return
+					}
+				}
+			}
 			if ok {
 				c.Pass(key, call.Pos(), "dominated by the ok-edge of Verify against a parsed request digest")
 			} else {
@@ -1124,46 +1157,96 @@ func runRoute(c *core.Ctx) {
 		return found
 	}
 	n := 0
+	// routing functions: the router and the methods of the server it hands the request on to (sub-routers); a sub-router
+	// inherits the setting guards common to all the places the router calls it from
+	type routeFn struct {
+		fn        *ssa.Function
+		inherited map[string]bool
+	}
+	routers := []routeFn{{r.Router, map[string]bool{}}}
+	subCalls := map[*ssa.Function][]ssa.CallInstruction{}
 	an.Calls(r.Router, func(call ssa.CallInstruction) {
-		callee := call.Common().StaticCallee()
-		if callee == nil || core.FuncPkgPath(callee) != c.P.Module || callee.Signature.Recv() == nil {
+		sc := call.Common().StaticCallee()
+		if sc == nil || sc == r.Router || core.FuncPkgPath(sc) != c.P.Module || sc.Signature.Recv() == nil || an.NamedOf(an.Deref(sc.Signature.Recv().Type())) != r.Server || sc.Signature.Results().Len() != 0 {
 			return
 		}
-		res := callee.Signature.Results()
-		if res.Len() != 1 || !isNamed(res.At(0).Type(), "net/http", "HandlerFunc") {
-			return
-		}
-		n++
-		var need []string
-		switch {
-		case reaches(callee, "BlobDelete"):
-			need = []string{"API.DeleteEnabled", "API.Blob.DeleteEnabled"}
-		case reaches(callee, "IndexRemove"):
-			need = []string{"API.DeleteEnabled"}
-		case mutates(c, callee, false) || anyAnonMutates(c, callee):
-			need = []string{"API.PushEnabled"}
-		case usesField(callee, "referrerCache"):
-			need = []string{"API.Referrer.Enabled"}
-		}
-		key := "route:" + kn(c.P.FuncName(callee))
-		trueOf, _ := settingGuards(call.Block())
-		var missing []string
-		for _, s := range need {
-			if !trueOf[s] {
-				missing = append(missing, s)
+		hasW := false
+		for _, p := range sc.Params {
+			if isNamed(p.Type(), "net/http", "ResponseWriter") {
+				hasW = true
 			}
 		}
-		var have []string
-		for s := range trueOf {
-			have = append(have, s)
-		}
-		sort.Strings(have)
-		if len(missing) > 0 {
-			c.Fail(key, call.Pos(), "the router reaches %s without the true edge of %v (guards present: %v): the handler runs although the documented switch is off", c.P.FuncName(callee), missing, have)
-		} else {
-			c.Pass(key, call.Pos(), "requires %v; guarded by %v", need, have)
+		if hasW {
+			subCalls[sc] = append(subCalls[sc], call)
 		}
 	})
+	var subs []*ssa.Function
+	for f := range subCalls {
+		subs = append(subs, f)
+	}
+	sort.Slice(subs, func(i, j int) bool { return subs[i].Name() < subs[j].Name() })
+	for _, f := range subs {
+		var inh map[string]bool
+		for _, site := range subCalls[f] {
+			t, _ := settingGuards(site.Block())
+			if inh == nil {
+				inh = t
+				continue
+			}
+			for k := range inh {
+				if !t[k] {
+					delete(inh, k)
+				}
+			}
+		}
+		routers = append(routers, routeFn{f, inh})
+	}
+	for _, rf := range routers {
+		rf := rf
+		an.Calls(rf.fn, func(call ssa.CallInstruction) {
+			callee := call.Common().StaticCallee()
+			if callee == nil || core.FuncPkgPath(callee) != c.P.Module || callee.Signature.Recv() == nil {
+				return
+			}
+			res := callee.Signature.Results()
+			if res.Len() != 1 || !isNamed(res.At(0).Type(), "net/http", "HandlerFunc") {
+				return
+			}
+			n++
+			var need []string
+			switch {
+			case reaches(callee, "BlobDelete"):
+				need = []string{"API.DeleteEnabled", "API.Blob.DeleteEnabled"}
+			case reaches(callee, "IndexRemove"):
+				need = []string{"API.DeleteEnabled"}
+			case mutates(c, callee, false) || anyAnonMutates(c, callee):
+				need = []string{"API.PushEnabled"}
+			case usesField(callee, "referrerCache"):
+				need = []string{"API.Referrer.Enabled"}
+			}
+			key := "route:" + kn(c.P.FuncName(callee))
+			trueOf, _ := settingGuards(call.Block())
+			for k := range rf.inherited {
+				trueOf[k] = true
+			}
+			var missing []string
+			for _, s := range need {
+				if !trueOf[s] {
+					missing = append(missing, s)
+				}
+			}
+			var have []string
+			for s := range trueOf {
+				have = append(have, s)
+			}
+			sort.Strings(have)
+			if len(missing) > 0 {
+				c.Fail(key, call.Pos(), "the router reaches %s without the true edge of %v (guards present: %v): the handler runs although the documented switch is off", c.P.FuncName(callee), missing, have)
+			} else {
+				c.Pass(key, call.Pos(), "requires %v; guarded by %v", need, have)
+			}
+		})
+	}
 	if n == 0 {
 		c.Unresolved("router", "no handler constructor calls found in the router")
 	}
